@@ -485,6 +485,7 @@ int simk_pthread_key_delete(pthread_key_t key) {
   if (key >= keys.size() || !keys[key].alive) return EINVAL;
   keys[key].alive = false;
   ev("key_delete", (int64_t)key);
+  probe("tls.key_deleted");
   return 0;
 }
 void *simk_pthread_getspecific(pthread_key_t key) {
